@@ -227,6 +227,12 @@ func Run(threads []Thread, choose Chooser, maxSteps int) (res Result) {
 		if k, ok := g.pend.key.(int); ok {
 			key = k
 		}
+		// releasing a mutex that is not held is a fatal (unrecoverable) runtime error in Go: stop the run
+		// here and report it instead of letting the process die
+		if k := kindOf(coq); (k == "unlock" && !mu(g.pend.obj).locked) || (k == "runlock" && mu(g.pend.obj).readers == 0) {
+			res.Panic = fmt.Sprintf("thread %d is about to unlock a mutex that is not locked (%s): fatal error in Go", t, coq)
+			return
+		}
 		res.Steps = append(res.Steps, Step{T: t, Label: coq, Key: key})
 		stepsSoFar = len(res.Steps)
 		res.Enabled = append(res.Enabled, enabled)
